@@ -150,10 +150,19 @@ func checkC02(c *Ctx) {
 	c.Decides("ROOT-ONCE: a reader sets the root of the tree it builds at most once per call: the guard of SetRoot inside the token loop is a latch (nil test of a variable only ever assigned freshly created nodes, zero test of a pure increment counter, or a flag only ever set), and the recursive builders pass a node just created to every inner call - otherwise nodes are orphaned and the delivered tree's node ids are not 0..n-1, which id-indexed traversals index with")
 	c.Extra["setroot_sites"] = c.rootOnce("ROOT-ONCE", readerPkgs...)
 	c.Floor("ROOT-ONCE", 3)
+	c.Decides("ENTRY-NONNIL: ReadTreeReader turns a document without a tree into an error for every format (FirstTree taken under HasTrees or followed by a nil test); PEEK-IDX: bytes obtained with bufio Peek are indexed only where the error is nil or the length was tested")
+	c.entryNonNil("ENTRY-NONNIL")
+	c.Floor("ENTRY-NONNIL", 3)
+	c.peekIdx("PEEK-IDX", c.All)
+	if fx := c.Fixture(); fx != nil {
+		sub := c.subCtx(fx)
+		_, nv := sub.peekIdx("PEEK-IDX", fx)
+		c.Control("PEEK-IDX", nv == 1, "fixture.C02PeekIndex indexes peeked bytes while tolerating io.EOF")
+	}
 	c.Floor("EOFLOOP", 40)
 	c.Floor("RECUR", 2)
 	c.Floor("NIL-DECODE", 2)
 	c.Floor("GO-CLOSE", 1)
 	c.Floor("ERRFLOW", 5)
-	c.Floor("CONTROL", 5)
+	c.Floor("CONTROL", 6)
 }
